@@ -63,6 +63,60 @@ func typeNames(s *ast.Schema) []string {
 	return r
 }
 
+// abstractWarmups builds up to four data operations `{ f { ... on A { __typename } } }` where f is a root field of
+// abstract type T without required arguments and A another abstract type sharing a possible type with T.
+func abstractWarmups(s *ast.Schema) []string {
+	if s.Query == nil {
+		return nil
+	}
+	var abstracts []string
+	for n, d := range s.Types {
+		if (d.Kind == ast.Interface || d.Kind == ast.Union) && !strings.HasPrefix(n, "__") {
+			abstracts = append(abstracts, n)
+		}
+	}
+	sort.Strings(abstracts)
+	var out []string
+	for _, f := range s.Query.Fields {
+		if strings.HasPrefix(f.Name, "__") || hasRequiredArgument(f) {
+			continue
+		}
+		t := s.Types[f.Type.Name()]
+		if t == nil || t.Kind != ast.Interface && t.Kind != ast.Union {
+			continue
+		}
+		mine := map[string]bool{}
+		for _, pt := range s.PossibleTypes[t.Name] {
+			mine[pt.Name] = true
+		}
+		for _, a := range abstracts {
+			if a == t.Name {
+				continue
+			}
+			shared := false
+			for _, pt := range s.PossibleTypes[a] {
+				if mine[pt.Name] {
+					shared = true
+				}
+			}
+			q := fmt.Sprintf("{ %s { ... on %s { __typename } } }", f.Name, a)
+			if _, errs := gqlparser.LoadQuery(s, q); shared && errs == nil && len(out) < 4 {
+				out = append(out, q)
+			}
+		}
+	}
+	return out
+}
+
+func hasRequiredArgument(f *ast.FieldDefinition) bool {
+	for _, a := range f.Arguments {
+		if a.Type.NonNull && a.DefaultValue == nil {
+			return true
+		}
+	}
+	return false
+}
+
 func checkC16(c *ExecCase) (*ev.Failure, string) {
 	res, merr, pan := runMerge(c.World, c.Config.Order, c.Config.Merger)
 	if pan != "" || merr != nil {
@@ -91,6 +145,12 @@ func checkC16(c *ExecCase) (*ev.Failure, string) {
 	gw, err := gwx.Build(c.World, net, c.Config)
 	if err != nil {
 		return ev.Failf("harness", "%v", err), ""
+	}
+	// ordinary data requests served before (fragments on one abstract type inside a field of another one make the
+	// planner intersect possible types) must leave the schema the gateway reports and enforces as it was
+	for _, q := range abstractWarmups(merged) {
+		gwx.PostOp(gw, gwx.GQLRequest{Query: q}, 15*time.Second)
+		net.Reset()
 	}
 	// an earlier request with the same text but other variable values must not influence the answer (plan cache)
 	if wv := warmupVariables(c.Op.Variables, typeNames(merged)); wv != nil {
@@ -269,7 +329,7 @@ func genIntrospectionOp(t *rapid.T, schema *ast.Schema) *opgen.Op {
 
 func TestC16(t *testing.T) {
 	rec := ev.Get("C16")
-	rec.Rule = "gateway over (a) a generated federated world or (b) one service with a generated type-system-rich schema (descriptions, deprecations, directives, defaults, wrappers) x introspection operation: the standard query (1 in 6) or a grammar-generated selection over the meta-schema (aliases, fragments, @skip/@include, __type by literal and by variable with existing/builtin/unknown names, includeDeprecated literal/variable/omitted); oracle: answer == harness resolver on the merger's schema (lists order-insensitive), no downstream request, and for the standard query a standard client rebuilds a schema with exactly the enforced schema's facts, and so does the gateway's own introspection client pointed at this gateway (a second gateway; directive repeatability aside, KF-C15-1); non-trivial = selection reaching depth>=3 of the meta-schema on a schema with interface/union/input/enum; distinct by hash(case)"
+	rec.Rule = "gateway over (a) a generated federated world or (b) one service with a generated type-system-rich schema (descriptions, deprecations, directives, defaults, wrappers) x introspection operation: the standard query (1 in 6) or a grammar-generated selection over the meta-schema (aliases, fragments, @skip/@include, __type by literal and by variable with existing/builtin/unknown names, includeDeprecated literal/variable/omitted); before it up to four data operations that spread a fragment on one abstract type inside a root field of another are served by the same gateway; oracle: answer == harness resolver on the merger's schema (lists order-insensitive), no downstream request, and for the standard query a standard client rebuilds a schema with exactly the enforced schema's facts, and so does the gateway's own introspection client pointed at this gateway (a second gateway; directive repeatability aside, KF-C15-1); non-trivial = selection reaching depth>=3 of the meta-schema on a schema with interface/union/input/enum; distinct by hash(case)"
 	defer census.dump("C16")
 	rapid.Check(t, func(t *rapid.T) {
 		var w *world.World
